@@ -136,11 +136,11 @@ def run(ctx):
                 ('models', dict(nconds='{5}', grid='GridQ', keepmod=8), 'm_Q5'),
                 ('models', dict(nconds='{5}', grid='GridA', keepmod=160, offs='Offs'), 'm_A5'),
                 ('models', dict(nconds='{3,4,5}', grid='GridL', keepmod=12), 'm_L'),
-                ('protocol', dict(nconds='{2,3,4,5}', offs='OffsFew', keepmod=4), 'p_cat')]
+                ('protocol', dict(nconds='{2,3,4,5}', offs='OffsFew', keepmod=8), 'p_cat')]
     else:
         runs = [('models', dict(nconds='{2,3,4}', grid='GridA', keepmod=64), 'm_A234'),
                 ('models', dict(nconds='{5}', grid='GridQ', keepmod=32), 'm_Q5'),
-                ('protocol', dict(nconds='{2,3,4,5}', offs='OffsFew', nparts='{1,3}', keepmod=8), 'p_cat')]
+                ('protocol', dict(nconds='{2,3,4,5}', offs='OffsFew', nparts='{1,3}', keepmod=16), 'p_cat')]
     ctx.exhaustive = False
     total = neg = 0
     maxerr = 0.0
@@ -163,6 +163,19 @@ def run(ctx):
                 ctx.sample({k: rec[k] for k in ('n', 'pts', 'P', 'nPart', 'nSim', 'sig', 'design', 'same', 'labels',
                                                 'draws', 'model', 'rdm', 'cls')}, cap=4)
                 break
+    # clause b for every size: make_design is pure and cheap - all n_cond in 1..130 x n_part in 1..4
+    r = ctx.tlc('MC_Simulation', S.cfg('design', nconds='N130', nparts='{1,2,3,4}', salt=salt), name='design_sweep',
+                workers=8, timeout=900)
+    if r.n_emitted != 520:
+        raise MachineryError(f'design sweep emitted {r.n_emitted} of 520 designs')
+    for rec in r.iter_emitted():
+        for key, what, detail in S.check_design(rec):
+            ctx.violation(f'{PID}/{key}', what, detail)
+        ctx.count(1)
+        if rec['n'] >= 2 and rec['nPart'] >= 2:
+            ctx.nontrivial_extra += 1
+    ctx.traces += 520
+    ctx.extra['design_sweep'] = 'make_design == MakeDesign for all n_cond in 1..130 x n_part in 1..4 (520 designs)'
     if neg == 0:
         raise MachineryError('no negative control (n_channel < n_cond / signal covariance) was generated')
     ctx.extra['configurations_replayed'] = total
